@@ -431,6 +431,153 @@ func (e *Env) bigTerm(v ssa.Value) (string, bool) {
 	return "", false
 }
 
+// bigMutatorsOf: the calls in e.Fn that may change the content of the big.Int denoted by term rt (receiver of a mutating
+// method, or argument of a module function that mutates that parameter).
+func (e *Env) bigMutatorsOf(rt string) []ssa.Instruction {
+	var out []ssa.Instruction
+	for _, b := range e.Fn.Blocks {
+		for _, in := range b.Instrs {
+			c, ok := in.(ssa.CallInstruction)
+			if !ok {
+				continue
+			}
+			cc := c.Common()
+			if m := bigMethod(c); m != "" {
+				if bigMutators[m] && len(cc.Args) > 0 && e.termShallow(cc.Args[0]) == rt {
+					out = append(out, in)
+				}
+				continue
+			}
+			for i, a := range cc.Args {
+				if !isBigIntPtr(a.Type()) || e.termShallow(a) != rt {
+					continue
+				}
+				idx := i
+				if cc.IsInvoke() {
+					idx = i + 1
+				}
+				for _, callee := range e.P.Callees(c) {
+					if e.P.bigMutatesParam(callee, idx) {
+						out = append(out, in)
+					}
+				}
+			}
+		}
+	}
+	return out
+}
+
+// termShallow: Term without entering the big-value layer (so that it can be used while computing versions).
+func (e *Env) termShallow(v ssa.Value) string {
+	if c, ok := v.(*ssa.Call); ok && isBigIntPtr(c.Type()) {
+		return e.opaque(c)
+	}
+	return e.Term(v)
+}
+
+// instrReaches: `to` can be reached from just after `from` (or from the function entry when from == nil) without
+// executing any instruction of barriers.
+func instrReaches(fn *ssa.Function, from ssa.Instruction, to ssa.Instruction, barriers map[ssa.Instruction]bool) bool {
+	type pos struct {
+		b *ssa.BasicBlock
+	}
+	seen := map[*ssa.BasicBlock]bool{}
+	var scan func(b *ssa.BasicBlock, i int) bool
+	scan = func(b *ssa.BasicBlock, i int) bool {
+		for ; i < len(b.Instrs); i++ {
+			in := b.Instrs[i]
+			if in == to {
+				return true
+			}
+			if barriers[in] {
+				return false
+			}
+		}
+		for _, s := range b.Succs {
+			if seen[s] {
+				continue
+			}
+			seen[s] = true
+			if scan(s, 0) {
+				return true
+			}
+		}
+		return false
+	}
+	if from == nil {
+		seen[fn.Blocks[0]] = true
+		return scan(fn.Blocks[0], 0)
+	}
+	return scan(from.Block(), indexIn(from)+1)
+}
+
+// bigRef renders a *big.Int operand of a content-reading call at instruction `at`: its value term when it is an
+// immutable construction, else its pointer term qualified by the set of mutations that can reach `at` — two reads
+// agree only if they see the same version of the object.
+func (e *Env) bigRef(v ssa.Value, at ssa.Instruction) string {
+	if p, ok := v.(*ssa.Parameter); ok {
+		if a, pe := e.actual(p); a != nil && e.Call != nil {
+			return pe.bigRef(a, e.Call)
+		}
+	}
+	if c, ok := v.(*ssa.Call); ok {
+		if s, ok := e.bigTerm(c); ok {
+			return s
+		}
+	}
+	rt := e.termShallow(v)
+	muts := e.bigMutatorsOf(rt)
+	// a value defined by a mutating call that returns its receiver (x := big.NewInt(0).SetBytes(b)) starts a version
+	if c, ok := v.(*ssa.Call); ok {
+		if m := bigMethod(c); m != "" && bigMutators[m] {
+			muts = append(muts, c)
+		}
+	}
+	if len(muts) == 0 || at == nil || at.Parent() != e.Fn {
+		return rt
+	}
+	barriers := map[ssa.Instruction]bool{}
+	for _, m := range muts {
+		barriers[m] = true
+	}
+	var vs []string
+	if instrReaches(e.Fn, nil, at, barriers) {
+		vs = append(vs, "0")
+	}
+	for _, m := range muts {
+		if m == at {
+			continue
+		}
+		if instrReaches(e.Fn, m, at, barriers) {
+			vs = append(vs, valueName(m))
+		}
+	}
+	sort.Strings(vs)
+	return rt + "@v{" + strings.Join(vs, ",") + "}"
+}
+
+// bigReachingDefs: the mutating calls whose result the content of v at `at` may be (for taint: where do the bytes come from).
+func (e *Env) bigReachingDefs(v ssa.Value, at ssa.Instruction) []*ssa.Call {
+	rt := e.termShallow(v)
+	muts := e.bigMutatorsOf(rt)
+	if c, ok := v.(*ssa.Call); ok {
+		if m := bigMethod(c); m != "" && bigMutators[m] {
+			muts = append(muts, c)
+		}
+	}
+	barriers := map[ssa.Instruction]bool{}
+	for _, m := range muts {
+		barriers[m] = true
+	}
+	var out []*ssa.Call
+	for _, m := range muts {
+		if c, ok := m.(*ssa.Call); ok && m != at && instrReaches(e.Fn, m, at, barriers) {
+			out = append(out, c)
+		}
+	}
+	return out
+}
+
 var pureInvokes = map[string]bool{
 	"Coordinator.ComputeId": true, "Coordinator.SelfId": true, "UserAccountHandler.AddressBytes": true,
 	"UserAccountHandler.GetOwnerAddress": true, "UserAccountHandler.GetUserName": true,
@@ -570,6 +717,17 @@ func (e *Env) Term(v ssa.Value) string {
 		}
 		name := CalleeName(v)
 		if pn, ok := pureStatic[name]; ok {
+			if strings.HasPrefix(name, "(*math/big.Int).") {
+				var parts []string
+				for _, a := range v.Call.Args {
+					if isBigIntPtr(a.Type()) {
+						parts = append(parts, e.bigRef(a, v))
+					} else {
+						parts = append(parts, e.Term(a))
+					}
+				}
+				return pn + "(" + strings.Join(parts, ",") + ")"
+			}
 			return pn + "(" + e.termList(v.Call.Args) + ")"
 		}
 		if in := InvokeName(v); in != "" && pureInvokes[in] {
@@ -1357,12 +1515,19 @@ func errCallOf(v ssa.Value) *ssa.Call {
 	return nil
 }
 
+type pendingSummary struct {
+	call    *ssa.Call
+	nilEdge edge
+	why     string
+}
+
 // EdgeFacts computes, once per env, the facts established on each conditional edge of the function.
 func (e *Env) EdgeFacts() map[edge][]Fact {
 	if e.ef != nil {
 		return e.ef
 	}
 	e.ef = map[edge][]Fact{}
+	var pending []pendingSummary
 	for _, b := range e.Fn.Blocks {
 		if len(b.Instrs) == 0 {
 			continue
@@ -1394,33 +1559,46 @@ func (e *Env) EdgeFacts() map[edge][]Fact {
 				if bo.Op == token.EQL {
 					nilEdge = tE
 				}
-				for _, callee := range e.P.Callees(call) {
-					if len(callee.Blocks) == 0 || callee.Pkg == nil || !strings.HasPrefix(callee.Pkg.Pkg.Path(), modPath) {
-						continue
-					}
-					if len(e.P.Callees(call)) != 1 {
-						break
-					}
-					sub := e.Sub(call, callee)
-					fs := sub.returnFacts(isSuccessReturn, why+" via "+callee.Name())
-					e.ef[nilEdge] = append(e.ef[nilEdge], sub.rewriteResults(call, fs)...)
-				}
+				pending = append(pending, pendingSummary{call, nilEdge, why})
 			}
 		}
+	}
+	// phase 2: validator summaries, computed under what the caller already knows at the call site (so that a callee
+	// guard like `if nonce > 0 && x == nil { return err }` yields x != nil for a caller that has excluded nonce == 0)
+	for _, ps := range pending {
+		callees := e.P.Callees(ps.call)
+		if len(callees) != 1 {
+			continue
+		}
+		callee := callees[0]
+		if len(callee.Blocks) == 0 || callee.Pkg == nil || !strings.HasPrefix(callee.Pkg.Pkg.Path(), modPath) {
+			continue
+		}
+		assume := e.factsAt(ps.call.Block(), ps.call, nil)
+		sub := e.Sub(ps.call, callee)
+		fs := sub.returnFactsA(isSuccessReturn, ps.why+" via "+callee.Name(), assume)
+		e.ef[ps.nilEdge] = append(e.ef[ps.nilEdge], sub.rewriteResults(ps.call, fs)...)
 	}
 	return e.ef
 }
 
 // returnFacts: facts (over the caller's terms for parameters) that hold at every return selected by sel.
 func (e *Env) returnFacts(sel func(*ssa.Return) bool, why string) []Fact {
+	return e.returnFactsA(sel, why, nil)
+}
+
+func (e *Env) returnFactsA(sel func(*ssa.Return) bool, why string, assume []Fact) []Fact {
 	var sets []map[string]Fact
 	for _, r := range returnsOf(e.Fn) {
 		if !sel(r) {
 			continue
 		}
 		m := map[string]Fact{}
-		for _, f := range e.factsAtBlock(r.Block(), nil) {
+		for _, f := range e.factsAtBlock(r.Block(), assume) {
 			m[f.Key()] = f
+		}
+		if len(assume) > 0 && e.unreachableUnder(r.Block(), assume) {
+			continue // this return cannot be taken by a caller that knows `assume`
 		}
 		// facts about the returned values themselves, in terms of "ret#i"
 		for i := range r.Results {
@@ -1465,6 +1643,21 @@ func (e *Env) returnFacts(sel func(*ssa.Return) bool, why string) []Fact {
 		}
 	}
 	return out
+}
+
+// unreachableUnder: every path from the entry to block p traverses an edge that contradicts the assumptions.
+func (e *Env) unreachableUnder(p *ssa.BasicBlock, assume []Fact) bool {
+	cut := map[edge]bool{}
+	for ed, fs := range e.EdgeFacts() {
+		for _, f := range fs {
+			for _, a := range assume {
+				if contradicts(f, a) {
+					cut[ed] = true
+				}
+			}
+		}
+	}
+	return len(cut) > 0 && !reachableAvoiding(e.Fn.Blocks[0], p, cut)
 }
 
 func renameLE(l LE, from, to string) LE {
@@ -1650,12 +1843,20 @@ func (e *Env) killedBetween(f Fact, eds []edge, p *ssa.BasicBlock, at ssa.Instru
 			}
 		}
 	}
+	cutS := map[edge]bool{}
+	for _, ed := range eds {
+		cutS[ed] = true
+	}
 	for b := range between {
 		for _, in := range b.Instrs {
 			if b == p && at != nil && in == at {
 				break
 			}
-			if e.mayKill(in, fields, f.big) {
+			if !e.mayKill(in, fields, f.big) {
+				continue
+			}
+			// the killer matters only if p can be reached from it without the fact being re-established on the way
+			if b == p || reachableAvoiding(b, p, cutS) {
 				return true
 			}
 		}
@@ -1811,6 +2012,11 @@ func (p *Prog) mayStoreFn(fn *ssa.Function, stack map[*ssa.Function]bool) map[st
 				cc := in.Common()
 				if cc.IsInvoke() && (cc.Method.Name() == "Unmarshal") || strings.HasSuffix(CalleeName(in), ".Decode") {
 					for _, a := range cc.Args {
+						if mi, ok := a.(*ssa.MakeInterface); ok {
+							if _, fresh := mi.X.(*ssa.Alloc); fresh {
+								continue // decoding into an object allocated in this callee cannot change what a caller's fact reads
+							}
+						}
 						addAllFields(a, out)
 					}
 				}
@@ -1852,6 +2058,7 @@ func (e *Env) LinFactsAt(at ssa.Instruction, assume []Fact) []Fact {
 		}
 	}
 	out = append(out, e.phiFacts()...)
+	out = append(out, e.libraryFacts()...)
 	for _, a := range assume {
 		if a.Lin {
 			out = append(out, a)
@@ -1869,6 +2076,26 @@ func Proves(facts []Fact, goal LE) bool {
 		}
 	}
 	return entails(ls, goal, nonNegAtom)
+}
+
+// libraryFacts: length facts of standard-library results: strings.Split(s, sep) with a non-empty constant sep returns at
+// least one element (so a redundant `len(tokens) == 0` test may be removed without the index becoming unsafe).
+func (e *Env) libraryFacts() []Fact {
+	var out []Fact
+	for _, b := range e.Fn.Blocks {
+		for _, in := range b.Instrs {
+			call, ok := in.(*ssa.Call)
+			if !ok || CalleeName(call) != "strings.Split" {
+				continue
+			}
+			if k, ok := call.Call.Args[1].(*ssa.Const); ok {
+				if s, ok := constStringVal(k.Value); ok && s != "" {
+					out = append(out, Fact{Lin: true, LE: e.lenOf(call).addK(-1), Why: "strings.Split with a non-empty separator returns at least one element"})
+				}
+			}
+		}
+	}
+	return out
 }
 
 // phiFacts: inductive bounds for loop φ's: φ = [init, φ + c] with c >= 0 gives φ >= init.
@@ -1936,6 +2163,8 @@ func isExportedAPI(fn *ssa.Function) bool {
 	return o != nil && o.Exported()
 }
 
+var contradictorySites int
+
 type proofResult struct {
 	OK    bool
 	By    string
@@ -1971,7 +2200,12 @@ func (p *Prog) proveLinIn(e *Env, _ []*Env, at ssa.Instruction, goals func(e *En
 		for _, f := range facts {
 			used = append(used, f.String())
 		}
-		return proofResult{OK: true, By: summarizeBy(facts, gs), Facts: used, Ctx: e.ctx}
+		by := summarizeBy(facts, gs)
+		if Proves(facts, leConst(-1)) {
+			by = "CONTRADICTORY-FACTS (site unreachable?): " + by
+			contradictorySites++
+		}
+		return proofResult{OK: true, By: by, Facts: used, Ctx: e.ctx}
 	}
 	// push to callers of the outermost function of the chain
 	top := e
